@@ -49,6 +49,11 @@ Section Deriv.
     flat_map (fun l => dsph_degree l th ph (sph_model L th ph)) (seq 0 (S L)).
 End Deriv.
 
+(* SciPy's sph_harm_y(n, m, polar, azimuth) for m >= 1, polar in [0, pi], expressed through the definition: used to EVALUATE
+   dsph_model in the correspondence (the hypothesis it satisfies is validated against SciPy on every run) *)
+Definition sre0 (l m : Z) (ph th : R) : R := m1pow m * (Flm (Z.to_nat l) (Z.to_nat m) ph / sqrt 2) * cos (INR (Z.to_nat m) * th).
+Definition sim0 (l m : Z) (ph th : R) : R := m1pow m * (Flm (Z.to_nat l) (Z.to_nat m) ph / sqrt 2) * sin (INR (Z.to_nat m) * th).
+
 (* ---------------- solid_harmonics ---------------- *)
 Definition degrees (L : nat) : list nat := flat_map (fun l => repeat l (2 * l + 1)) (seq 0 (S L)).
 Fixpoint map2 {A B C} (f : A -> B -> C) (a : list A) (b : list B) : list C :=
